@@ -90,7 +90,11 @@ def install(ctx, module):
                        ("detect_tilt", post_detect_tilt), ("u_to_euler", post_u_to_euler), ("u_to_rod", post_u_to_rod)):
         observe.watch("%s.%s" % (m, name), getattr(module, name))
         ctx.ensure(module, name, cond)
-    observe.watch("%s._arctan2" % m, module._arctan2)
+    # a private helper: the property does not need it to exist
+    if hasattr(module, "_arctan2"):
+        observe.watch("%s._arctan2" % m, module._arctan2)
+    else:
+        mon.config("%s has no _arctan2" % m)
 
 
 def setup(ctx):
